@@ -40,6 +40,10 @@ static int64_t v_pred(uint32_t p, int32_t* a, int32_t* b) {
 }
 static int fits32(int64_t v) { return v >= -2147483648LL && v <= 2147483647LL; }
 static void in_vec(int32_t* v) { for (int i = 0; i < 4; i++) v[i] = in_i32(); }
+#ifdef NNBITS
+/* structurally narrow non-negative operand: value = input & (2^NNBITS - 1), i.e. in [0, 2^NNBITS) (cheap for the bit-level solver) */
+static int32_t in_small(void) { return (int32_t)(in_u64() & ((1ULL << NNBITS) - 1)); }
+#endif
 #ifndef GROUP
 #define GROUP 0
 #endif
@@ -83,6 +87,10 @@ void harness(void) {
 #else
   op = (GROUP == 1 ? OP_MUL_S : GROUP == 2 ? OP_DIV_S : OP_MOD_S);
   if (in_bool()) op += OP_IMUL_S - OP_MUL_S; /* compound form */
+#ifdef NNBITS
+  s = in_small();
+  for (int i = 0; i < DIMS; i++) a[i] = in_small();
+#endif
   ASSUME(s >= -MB && s <= MB);
   if (GROUP != 1) ASSUME(s != 0);
   for (int i = 0; i < DIMS; i++) {
@@ -96,6 +104,9 @@ void harness(void) {
 #elif MODE == 1
   /* !, ==, !=, norm1 (sum of components), norm2, dot, dimensions */
   in_vec(a); in_vec(b);
+#ifdef NNBITS
+  for (int i = 0; i < 4; i++) { a[i] = in_small(); b[i] = in_small(); }
+#endif
   int all0 = 1, eq = 1;
   int64_t sum = 0;
   for (int i = 0; i < DIMS; i++) {
